@@ -399,6 +399,14 @@ class Builder:
             txt.append('static ' + body)
         txt.append(extra)
         txt.append(harness_text)
+        # a function that is called (typically from contract / macro text) but has neither its body nor a contract stub
+        # in this file would silently be a nondeterministic function for CBMC
+        defined = set(need) | set(used_stubs) | {c + '__rec' for c in selfrec}
+        defined |= set(re.findall(r'(?m)^static [^;{()]*?\b(\w+)\([^;{]*\)\s*\n\{', extra or ''))
+        body_txt = '\n'.join(txt[2:])
+        for c in self.b.funcs:
+            if c not in defined and re.search(r'\b%s\(' % re.escape(c), body_txt):
+                raise ExtractError('%s/%s: %s is called (by contract or macro text) but is neither extracted nor replaced here; name it in inline: or replace:' % (self.u.name, name, c))
         p = os.path.join(self.wd, '%s__%s.c' % (self.u.name, name))
         with open(p, 'w') as f:
             f.write('\n'.join(txt))
